@@ -199,6 +199,11 @@ def run(tier: str, opts: dict) -> int:
             only_export = "exception" not in r["got"] and "exception" not in r["exp"] and all(r["got"].get(k) == r["exp"].get(k) for k in ("source", "target", "intermediate", "pairs"))
             if only_export and "(SELECT" in orig.upper():
                 new_pins[key] = ["F-C14-correlated-select-list-subquery-phantom-table", dg]
+            elif orig.upper().count("(SELECT") >= 2 and "exception" not in r["got"] and "exception" not in r["exp"] and \
+                    all(r["got"].get(k) == r["exp"].get(k) for k in ("source", "target", "intermediate")) and \
+                    any(p[0].startswith("<default>.") for p in r["exp"]["pairs"]) and not any(p[0].startswith("<default>.") for p in r["got"]["pairs"]):
+                # the explicitly qualified side is the wrong one: a column two scalar-subquery levels down loses its schema
+                new_pins[key] = ["F-C14-nested-select-list-subquery-loses-explicit-schema", dg]
             else:
                 unclassified.append((key, {"obs": r["got"], "delta": {}}))
             continue
